@@ -377,6 +377,20 @@ def conditional_script(g):
             op = dict(op="update", key=g.key_of(t["schema"]), expr=ue, cond=e, names={**un, **nm}, values={**uv, **vs}, **base)
             if r.random() < 0.6: op["rvoccf"] = "ALL_OLD"
         else: op = dict(op="delete", key=g.key_of(t["schema"]), cond=e, names=nm, values=vs, return_old=r.random() < 0.5, **base)
+        if r.random() < 0.12:
+            # a condition that compares a stored document with one that contains it / is contained in it / equals it:
+            # the target is an item written a moment ago, so the comparison is about THAT item
+            doc = {"M": {"x": g.scalar(), "k": S("1")}}
+            key = g.key_of(t["schema"])
+            ops.append(dict(op="put", item={**key, "m": doc, "g": S("x")}, **base))
+            rel = r.choice([{"M": dict(doc["M"], zz=S("extra"))}, {"M": {"x": doc["M"]["x"]}}, {"M": dict(doc["M"])}, {"M": {}}])
+            ce = r.choice(["m = :m", "m <> :m", "m IN (:o, :m)", "NOT m = :m", "contains(l, :m) OR m = :m"])
+            cv = {":m": rel}
+            if ":o" in ce: cv[":o"] = S("no")
+            kind = r.random()
+            if kind < 0.4: op = dict(op="update", key=key, expr="SET touched = :t", cond=ce, names={}, values={**cv, ":t": S("y")}, **base)
+            elif kind < 0.7: op = dict(op="delete", key=key, cond=ce, names={}, values=cv, return_old=True, **base)
+            else: op = dict(op="put", item={**key, "g": S("replaced")}, cond=ce, names={}, values=cv, **base)
         if op.get("values") and r.random() < 0.15:
             # the target item owns an attribute named like a value placeholder of the condition, with another value
             tgt = dict(op.get("item") or op.get("key"))
@@ -441,6 +455,7 @@ def failing_script(g):
         ops.append(dict(op="scan", **base))
         return ops
     t, ops = g.create_ops("c", "tbl")
+    ops += [dict(op="add_table", client="c", table="tb2", hash="h", range=""), dict(op="add_table", client="c", table="tb3", hash="h", range="")]
     ops += populate(g, t, nmin=1, nmax=5)
     base = dict(client="c", table="tbl")
     for _ in range(r.randrange(6, 14)):
@@ -457,7 +472,15 @@ def failing_script(g):
             bad_it = g.item_of(t); bad_it["g"] = N("7")
             bad = r.choice([dict(put=bad_it), dict(delete={"zz": S("nokey")}), dict(put={"zz": S("nokey")})])
             good.insert(r.randrange(0, len(good) + 1), bad)
-            ops.append(dict(op="batch_write", client="c", requests={"tbl": good}))
+            if r.random() < 0.5:
+                ops.append(dict(op="batch_write", client="c", requests={"tbl": good}))
+            else:
+                # ... or over several tables: valid requests for some, the impossible one in another (a table that holds
+                # other requests too, or a table that does not exist)
+                reqs = {"tb2": [dict(put={"h": S("p%d" % i)}) for i in range(r.randrange(1, 3))], "tb3": [dict(put={"h": S("q")})]}
+                reqs[r.choice(["tbl", "tbl", "nope"])] = good if r.random() < 0.7 else [bad]
+                ops.append(dict(op="batch_write", client="c", requests=reqs))
+                ops.append(dict(op="scan", client="c", table="tb2")); ops.append(dict(op="scan", client="c", table="tb3"))
             ops.append(dict(op="scan", **base))
     return ops
 
@@ -489,6 +512,11 @@ def values_script(g):
         it = {"h": S("k%d" % i)}
         for a in r.sample(["a", "b", "c", "d", "e"], r.randrange(1, 5)):
             it[a] = g.value(3)
+        if r.random() < 0.25:
+            # a number set whose members differ only beyond float64 precision, or only in notation: every member is kept
+            ns = {"NS": r.sample(["9007199254740993", "9007199254740992", "0.1", "0.10000000000000000001", "123456789012345678901234567890",
+                                  "123456789012345678901234567891", "7"], r.randrange(2, 5))}
+            it[r.choice(["ns", "deep"])] = ns if r.random() < 0.6 else {"L": [ns]}
         ops.append(dict(op="put", client="c", table="tbl", item=it))
         ops.append(dict(op="get", client="c", table="tbl", key={"h": it["h"]}))
         if r.random() < 0.3:
@@ -557,7 +585,14 @@ def keys_script(g):
         elif q < 0.85:
             k = key(exact=r.random() < 0.85)
             if r.random() < 0.2: k["zz"] = S("extra")      # not a key attribute: it is not part of an item the update creates
-            ops.append(dict(op="update", key=k, expr="SET v = :v", names={}, values={":v": S("u%d" % len(ops))}, **base))
+            numk = [a for a, ty in [schema["hash"]] + ([schema["range"]] if schema["range"] else []) if ty == "N"]
+            if numk and r.random() < 0.4:
+                # a copy of the key attribute is changed in place by a later action: the key attribute itself stays
+                ops.append(dict(op="update", key=k, expr=r.choice(["SET nx = %s ADD nx :one", "SET nx = %s, ny = nx ADD ny :one", "ADD nz :one SET nw = %s ADD nw :one"]) % numk[0],
+                                names={}, values={":one": N("1")}, **base))
+                ops.append(dict(op="scan", **base))
+            else:
+                ops.append(dict(op="update", key=k, expr="SET v = :v", names={}, values={":v": S("u%d" % len(ops))}, **base))
             ops.append(dict(op="get", key=key(), **base))
         elif q < 0.93: ops.append(dict(op="scan", **base))
         else: ops.append(dict(op="scan", esk=key(exact=r.random() < 0.5), **base))     # a start key written by hand
@@ -655,6 +690,10 @@ def faults_script(g):
             ops.append(r.choice([dict(op="get", client="c", table="t", key=k), dict(op="put", client="c", table="t", item=k),
                                  dict(op="delete", client="c", table="t", key=k),
                                  dict(op="update", client="c", table="t", key=k, expr="SET v = :v", names={}, values={":v": S("x")})]))
+        if r.random() < 0.25:
+            # batches that name no table, or no request / key for their table, while the failure is active
+            ops.append(r.choice([dict(op="batch_get", client="c", requests={}), dict(op="batch_get", client="c", requests={"tbl": []}),
+                                 dict(op="batch_write", client="c", requests={}), dict(op="batch_write", client="c", requests={"tbl": []})]))
         if two and r.random() < 0.7:
             # a batch over two tables while the failure is active: every request must come back under its own table
             reqs = {}
@@ -842,6 +881,24 @@ def restrictions_script(g):
             ops.append(r.choice([dict(op="get", key={"h": S("a"), "r": S("1")}, **rd, **base), dict(op="scan", values={}, **rd, **base),
                                  dict(op="query", keycond="h = :h", values={":h": S("a")}, **rd, **base),
                                  dict(op="batch_get", client="c", requests={"tbl": [{"h": S("a"), "r": S("1")}]}, opts={"tbl": rd})]))
+            continue
+        if r.random() < 0.12:
+            # every expression of a request is looked at on its own: a reserved word that ends one expression stays a
+            # reserved word when the next expression of the same request begins with a parenthesis
+            ops.append(r.choice([
+                dict(op="scan", projection="g, %s" % w, filter="(g = :v)", names={}, values={":v": S("x")}, **base),
+                dict(op="query", keycond="h = :h", projection="%s" % w, filter="(g = :v)", names={}, values={":h": S("a"), ":v": S("x")}, **base),
+                dict(op="update", key={"h": S("a"), "r": S("1")}, expr="REMOVE g.%s" % w, cond="(attribute_exists(h))", names={}, values={}, **base),
+                dict(op="update", key={"h": S("a"), "r": S("1")}, expr="SET f = %s" % w, cond="(attribute_exists(h))", names={}, values={}, **base)]))
+            continue
+        if r.random() < 0.1:
+            # a function name stays a function name when white space separates it from its parenthesis
+            sp_ = r.choice([" ", "  ", "\t", "\n", "\r\n"])
+            e = r.choice(["size%s(g) > :n", "attribute_exists%s(g)", "begins_with%s(g, :v)", "contains%s(g, :v)", "attribute_type%s(g, :v)",
+                          "NOT size%s(g) = :n", "g = :v AND size%s(g) >= :n"]) % sp_
+            vals = {k2: (N("0") if k2 == ":n" else S("S") if "attribute_type" in e else S("x")) for k2 in [":n", ":v"] if k2 in e}
+            ops.append(r.choice([dict(op="scan", filter=e, names={}, values=vals, **base),
+                                 dict(op="delete", key={"h": S("zz"), "r": S("9")}, cond=e, names={}, values=vals, **base)]))
             continue
         if r.random() < 0.08:
             # names are scoped to one table entry of a BatchGetItem: a name supplied for one table and used only by the
